@@ -232,6 +232,44 @@ def rule_desc(c, prog):
     c.floor(R, n, 20000, "class x visible property pairs evaluated")
 
 
+def rule_name(c, prog, R="C06.name"):
+    """the instance name is not a database property: both readers must deliver the `Name` they find for every class"""
+    c.rule(R, "the XML reader delivers the `Name` element to the instance name for every class: either it handles the name `Name` before and independently of the reflection lookup (as rbx_binary's PROP reader does), or that lookup resolves `Name` to a canonical, serializing descriptor called `Name` on every class of the bundled database")
+    fn = prog.fn("rbx_xml::deserializer::deserialize_properties")
+    # (A) a test of the element's name against the literal "Name" that is not nested under the descriptor's `Some` arm
+    lookups = [x for x in core.walk_fn(fn) if x.get("k") == "Call" and (core.callee(x) or "").endswith("find_canonical_property_descriptor")]
+    if not lookups:
+        raise core.AnchorMissing("deserialize_properties: no find_canonical_property_descriptor call")
+    desc_lids = set()
+    for st in core.walk_lets(fn.body):
+        if st.get("init") is not None and any(x is lookups[0] for x in core.walk(st["init"])) and st["pat"].get("k") == "Binding":
+            desc_lids.add(st["pat"]["lid"])
+    under_desc = set()
+    for n in core.walk_fn(fn):
+        if n.get("k") in ("If", "Match"):
+            cond = n.get("c") or n.get("e") or {}
+            if any(y.get("k") == "Path" and y.get("lid") in desc_lids for y in core.walk(cond)):
+                under_desc |= {id(y) for y in core.walk(n)}
+    special = [n for n in core.walk_fn(fn) if n.get("k") == "Binary" and n.get("op") == "==" and "Name" in (core.lit_value(n["l"]), core.lit_value(n["r"])) and id(n) not in under_desc]
+    special += [n for n in core.walk_fn(fn) if n.get("k") == "Match" and n.get("src") == "Normal" and id(n) not in under_desc and any(core.lit_value(a["pat"].get("e") or {}) == "Name" or (a["pat"].get("k") == "Lit" and (a["pat"].get("lit") or {}).get("v") == "Name") for a in n["arms"])]
+    if special:
+        c.ok(R, "xml-reader:Name-before-lookup")
+        return
+    xt = extract_sym(prog, prog.fn("rbx_xml::core::find_property_descriptors"))
+    d = dbm.Database()
+    lost = []
+    for ck in sorted(d.classes):
+        r = evaluate(xt, d, ck, "Name")
+        if not (isinstance(r, tuple) and isinstance(r[0], tuple) and r[0][1] == "Name"):
+            lost.append(ck)
+    c.rules[R]["obligations"] += len(d.classes)
+    c.rules[R]["discharged"] += len(d.classes) - len(lost)
+    if lost:
+        c.violation(R, "xml-reader|Name|" + ",".join(lost), f"rbx_xml reads the `Name` element through the reflection lookup like any property; for {len(lost)} database classes ({', '.join(lost)}) that lookup finds no serializing `Name` (the class is rooted at Object, or shadows Instance.Name with a property that does not serialize), so the element is dropped as unknown and the instance is named after its class — rbx_binary keeps the name; with ErrorOnUnknown the reader rejects what the writer wrote", core.loc(lookups[0]), instance="xml-reader:Name-before-lookup")
+    else:
+        c.ok(R, "xml-reader:Name-before-lookup")
+
+
 def rule_conv(c, prog):
     R = "C06.conv"
     c.rule(R, "off-type values accepted when writing are the same in both codecs: rbx_xml::conversion's (from, to) pairs vs the multi-variant encoder arms of the binary serialize_properties")
@@ -304,6 +342,7 @@ def run(c, prog):
     from sa import db as _dbm
     _C16.rule_sername(core.Alias(c, "C06"), prog, _dbm.Database())     # two canonical properties written under one name lose a value
     rule_desc(c, prog)
+    rule_name(c, prog)
     rule_conv(c, prog)
     common.rule_writer_total(core.Alias(c, "C06"), prog, "C02.total", "xml")     # the two encodings can only be equivalent where both exist
     common.rule_writer_total(core.Alias(c, "C06"), prog, "C01.total", "binary")
